@@ -540,8 +540,8 @@ impl<C: CrcCalculator> Encapsulator<C> {
         let pdu_len_encapsulated: usize;
         let encap_status: EncapStatus;
         // End packet
-        // if the rest of packet fits in the buffer
-        if buffer_len >= gse_end_len + FIXED_HEADER_LEN {
+        // if the rest of packet fits in the buffer and in the 12 bits GSE length field
+        if buffer_len >= gse_end_len + FIXED_HEADER_LEN && GSE_LEN_MAX >= gse_end_len {
             header =
                 generate_gse_header(&PktType::EndFragPkt, &LabelType::ReUse, gse_end_len as u16);
             pdu_len_encapsulated = pdu_len_remaining;
@@ -556,7 +556,9 @@ impl<C: CrcCalculator> Encapsulator<C> {
         else if buffer_len > FIXED_HEADER_LEN + FRAG_ID_LEN {
             let gse_len: usize;
 
-            let pdu_len_available = buffer_len - (FIXED_HEADER_LEN + FRAG_ID_LEN);
+            // limited by the buffer and by the 12 bits GSE length field
+            let pdu_len_available =
+                (buffer_len - (FIXED_HEADER_LEN + FRAG_ID_LEN)).min(GSE_LEN_MAX - FRAG_ID_LEN);
 
             if pdu_len_available > pdu_len_remaining {
                 gse_len = FRAG_ID_LEN + pdu_len_remaining;
@@ -956,8 +958,8 @@ pub fn encap_frag_preview(
     let pkt_type: PktType;
     let pkt_len: u16;
     // End packet
-    // if the rest of packet fits in the buffer
-    if buffer_len >= gse_end_len + FIXED_HEADER_LEN {
+    // if the rest of packet fits in the buffer and in the 12 bits GSE length field
+    if buffer_len >= gse_end_len + FIXED_HEADER_LEN && GSE_LEN_MAX >= gse_end_len {
         pdu_len_encapsulated = pdu_len_remaining;
 
         let mut buffer_offset = FIXED_HEADER_LEN + FRAG_ID_LEN + pdu_len_encapsulated;
@@ -970,7 +972,9 @@ pub fn encap_frag_preview(
     else if buffer_len > FIXED_HEADER_LEN + FRAG_ID_LEN {
         let gse_len: usize;
 
-        let pdu_len_available = buffer_len - (FIXED_HEADER_LEN + FRAG_ID_LEN);
+        // limited by the buffer and by the 12 bits GSE length field
+        let pdu_len_available =
+            (buffer_len - (FIXED_HEADER_LEN + FRAG_ID_LEN)).min(GSE_LEN_MAX - FRAG_ID_LEN);
 
         if pdu_len_available > pdu_len_remaining {
             gse_len = FRAG_ID_LEN + pdu_len_remaining;
